@@ -269,6 +269,42 @@ theorem counterexample_allows_all_sibling_gap :
   intro V W
   exact ⟨by decide, by decide, by decide⟩
 
+/-! ## a single dev-release against a union split at that dev-release
+
+`<X || >=X.dev0` (e.g. `^1.0 || ==2.*` = `>=1.0,<2.0 || >=2.0.dev0,<3.0.dev0`) is a legitimate union: `<X` ends,
+effectively, at `X.dev0` (exclusive), and the next range starts there (inclusive).  `==X.dev0` lies in the second
+range.  In the merge walks the `Version` `X.dev0` and the range `<X` have the SAME effective upper end; the
+inclusive/exclusive tie-break of `allows_higher` says the version reaches higher, so the walk moves on to the second
+range and finds the overlap.  (Seeded change C12-3 drops that tie-break in `Version.allows_higher`; the walk then
+drops the version instead and answers "no overlap" at the irregular probe `X.dev0`.) -/
+
+/-- the tie-break: a `Version` equal to the effective (exclusive) upper end of a range reaches higher than it -/
+theorem version_allows_higher_tiebreak (X : Version) (hst : X.isUnstable = false) :
+    (RC.ver X.firstDevrelease).view.allowsHigher (RC.rng ⟨none, some X, false, false⟩).view = true := by
+  have a1 : (RC.ver X.firstDevrelease).view.allowedMax = some X.firstDevrelease := by
+    simp [RC.view, RC.max, RC.imax, VRange.allowedMax]
+  have a2 := VRange.allowedMax_eq_of_lt (r := ⟨none, some X, false, false⟩) (M := X) rfl (by intro m hm; cases hm)
+  simp only [Bool.false_or, hst, Bool.false_eq_true, if_false] at a2
+  have l : Version.lt X.firstDevrelease X.firstDevrelease = false := (lt_false_iff _ _).2 (le_refl _)
+  have g : Version.gt X.firstDevrelease X.firstDevrelease = false := (gt_false_iff _ _).2 (le_refl _)
+  unfold VRange.allowsHigher
+  rw [a1]
+  simp only [RC.view, RC.min, RC.max, RC.imin, RC.imax, a2, l, g, Bool.false_eq_true, if_false]
+  rfl
+
+/-- **`==X.dev0` and `<X || >=X.dev0` DO overlap** (instance `X = 1.0`): `allows_any` answers yes both ways,
+`intersect` is `==X.dev0` both ways, the union admits `X.dev0`, and `allows_all` of the union over the version is yes -/
+theorem dev0_overlaps_split_union :
+    let X := Version.mk' 0 [1, 0] none none none none
+    let D := Version.mk' 0 [1, 0] none none (some ⟨.dev, 0⟩) none
+    let U := VC.union [.rng ⟨none, some X, false, false⟩, .rng ⟨some D, none, true, false⟩]
+    VC.allowsAny (.single (.ver D)) U = .ok true ∧ VC.allowsAny U (.single (.ver D)) = .ok true ∧
+    VC.intersect (.single (.ver D)) U = .ok (.single (.ver D)) ∧
+    VC.intersect U (.single (.ver D)) = .ok (.single (.ver D)) ∧
+    U.allows D = .ok true ∧ VC.allowsAll U (.single (.ver D)) = .ok true := by
+  intro X D U
+  exact ⟨by decide, by decide, by decide, by decide, by decide, by decide⟩
+
 /-- The property at full strength, for arbitrary constraints (unions included).  Proved above for
 non-union operands (`*_member`), range-vs-union containment and the soundness of the union merge walks
 (`allows_all_sound_union`, `allows_any_no_sound_union`, over `allowsPlain`); also proved: the self laws and `allows_any` ↔ intersection for unions (`self_allows_union`,
